@@ -18,6 +18,8 @@ fn be(v: u128) -> [u8; 32] {
 
 #[derive(Clone, Debug, serde::Serialize, serde::Deserialize)]
 pub enum Cost {
+    /// a standard signature covenant with a run of instructions replaced by loops / no-ops of the same length
+    NearMiss(u64),
     /// nested loops: (iterations, body length) per level, then a tiny body
     Nest { levels: Vec<(u16, u16)>, body: Vec<(u8, u64)>, tail: Vec<(u8, u64)> },
     /// doubling prefix then a consumer
@@ -32,6 +34,7 @@ pub enum Cost {
 
 pub fn build(c: &Cost) -> Vec<ROp> {
     match c {
+        Cost::NearMiss(sel) => refvm::decode(&crate::vmgen::near_miss_std(*sel)).unwrap_or_default(),
         Cost::Nest { levels, body, tail } => {
             let mut ops = vec![];
             let inner = crate::vmgen::build_program(body);
@@ -224,6 +227,16 @@ pub fn check_cost(ops: &[ROp], st: &mut Stats) -> Check {
         Ok(w) => w,
         Err(p) => viol!("weight-panic", "weight() panicked on [{}]: {:?}", refvm::show_ops(ops), p),
     };
+    // what a spender is charged is computed from the covenant's *bytes*
+    if let Some(bytes) = refvm::encode(ops) {
+        let wb = match catch(|| melvm::covenant_weight_from_bytes(&bytes)) {
+            Ok(x) => x,
+            Err(p) => viol!("weight-panic", "covenant_weight_from_bytes panicked on [{}]: {:?}", refvm::show_ops(ops), p),
+        };
+        if wb != wref {
+            viol!("weight-value", "the weight charged for the bytes of [{}] is {} but the specification formula gives {}", refvm::show_ops(ops), wb, wref);
+        }
+    }
     if w != wref {
         viol!("weight-value", "weight of [{}] is {} but the specification formula gives {}", refvm::show_ops(ops), w, wref);
     }
@@ -301,6 +314,7 @@ pub fn arb_cost(thorough: bool) -> impl Strategy<Value = Cost> {
         3 => (any::<bool>(), 1..=kmax, any::<u8>(), any::<u64>())
             .prop_map(|(vector, k, consumer, arg)| Cost::Doubling { vector, k, consumer, arg }),
         3 => crate::vmgen::choices(60).prop_map(Cost::Typed),
+        1 => any::<u64>().prop_map(Cost::NearMiss),
         1 => proptest::collection::vec((any::<u8>(), any::<u16>()), 1..40).prop_map(Cost::Jumps),
         1 => (any::<bool>(), prop_oneof![Just(1u16), Just(30), 55u16..70, Just(200), Just(5000), Just(65535)], any::<u8>())
             .prop_map(|(vector, iters, consumer)| Cost::LoopDoubling { vector, iters, consumer }),
